@@ -380,8 +380,12 @@ pub fn run_lockstep(c: &ProgCase, cmp: Compare, ctx: &mut Ctx) -> Result<LockOut
         }
         if real_err.is_none() {
             let p = s.probe(false);
+            // the control structure (open loops, frames, defined functions) is compared where the program
+            // can still be resumed — it awaits input or sits at a STOP. After a normal end that table is
+            // dead state as far as the properties go: an implementation may keep or clear it.
+            let resumable = s.state() == St::Awaiting || p.breakpoint.is_some();
             let real_loops: Vec<String> = p.loops.iter().map(|l| l.symbol.clone()).collect();
-            if real_loops != m.loop_vars() {
+            if resumable && real_loops != m.loop_vars() {
                 return Err(v(
                     "loop-table-differs",
                     format!("real {} model {}", real_loops.len(), m.loops_len()),
@@ -415,7 +419,7 @@ pub fn run_lockstep(c: &ProgCase, cmp: Compare, ctx: &mut Ctx) -> Result<LockOut
                     }
                 }
                 let rf: Vec<String> = p.functions.iter().map(|f| f.name.clone()).collect();
-                if rf != m.funcs_sorted() {
+                if resumable && rf != m.funcs_sorted() {
                     return Err(v(
                         "functions-differ",
                         format!("real {} model {}", rf.len(), m.funcs_sorted().len()),
@@ -431,7 +435,7 @@ pub fn run_lockstep(c: &ProgCase, cmp: Compare, ctx: &mut Ctx) -> Result<LockOut
                     ));
                 }
             }
-            if p.stack.len() != m.frames_len() {
+            if resumable && p.stack.len() != m.frames_len() {
                 return Err(v(
                     "frame-count-differs",
                     format!("real {} model {}", p.stack.len(), m.frames_len()),
